@@ -617,7 +617,12 @@ class ModelInit(Contract):
 
 def compile_callees(module="formak.python"):
     """callee contracts for BasicBlock._compile / cpp.BasicBlock.compile"""
-    return {f"{module}:_simplify": GuardedSimplify(module)}
+    out = {f"{module}:_simplify": GuardedSimplify(module)}
+    if module == "formak.cpp":
+        from contracts.cppgen import CCode
+
+        out[CCode.key] = CCode()
+    return out
 
 
 def has_guarded_simplify(repo, module="formak.python"):
